@@ -963,6 +963,11 @@ type nsBuilder struct {
 	// plainNested: scopes below the top one are plain &ScopeSchema{} values that never applied themselves
 	plainNested bool
 	depth       int
+	// literalObjects: objects are written as &ObjectSchema{IDValue, PropertiesValue} values (they
+	// arrive without the defaults the constructor extracts, like objects rebuilt from a description)
+	literalObjects bool
+	// describable: enum values get (empty) display values, so that the tree can be SelfSerialized
+	describable bool
 }
 
 func (b *nsBuilder) object(t *hx.Ty) *schema.ObjectSchema {
@@ -978,6 +983,9 @@ func (b *nsBuilder) object(t *hx.Ty) *schema.ObjectSchema {
 			ps.Disable("harness")
 		}
 		props[np.Name] = ps
+	}
+	if b.literalObjects {
+		return &schema.ObjectSchema{IDValue: t.ID, PropertiesValue: props}
 	}
 	return schema.NewObjectSchema(t.ID, props)
 }
@@ -1016,6 +1024,24 @@ func (b *nsBuilder) build(t *hx.Ty) schema.Type {
 			members[m.Key] = b.build(m.Ty).(schema.Object)
 		}
 		return schema.NewOneOfStringSchema[any](members, t.Disc, t.Inlined)
+	case "enumStr":
+		if b.describable {
+			vals := map[string]*schema.DisplayValue{}
+			for _, v := range t.Vals {
+				vals[v] = schema.NewDisplayValue(nil, nil, nil)
+			}
+			return schema.NewStringEnumSchema(vals)
+		}
+	case "enumInt":
+		if b.describable {
+			vals := map[int64]*schema.DisplayValue{}
+			for _, v := range t.Vals {
+				var n int64
+				fmt.Sscan(v, &n)
+				vals[n] = schema.NewDisplayValue(nil, nil, nil)
+			}
+			return schema.NewIntEnumSchema(vals, t.Units.Build())
+		}
 	case "ref":
 		ns, id := splitNS(t.ID)
 		r := schema.NewNamespacedRefSchema(id, ns, nil)
@@ -1039,10 +1065,11 @@ func (b *nsBuilder) build(t *hx.Ty) schema.Type {
 
 // nsUniverse: descriptions of S, X, Y, YX and who binds which namespace name to which scope.
 type nsUniverse struct {
-	via   string    // entry point kind the namespaces are applied through (entryPoint)
-	bg    *nsBehGen // generator state for objects of the tree under test
-	trees map[string]*hx.Ty
-	bind  map[string]map[string]string // tree -> namespace -> tree
+	literalObjects bool      // the objects of every scope are written as literals (no defaults cache)
+	via            string    // entry point kind the namespaces are applied through (entryPoint)
+	bg             *nsBehGen // generator state for objects of the tree under test
+	trees          map[string]*hx.Ty
+	bind           map[string]map[string]string // tree -> namespace -> tree
 }
 
 // lexInline replaces every reference into another namespace by a pristine copy of the scope it
@@ -1145,6 +1172,9 @@ func (bg *nsBehGen) object(id string, depth int, ids []string) *hx.Ty {
 		if i > 0 && !p.Required && hasRef(pt) && r.Intn(6) == 0 {
 			p.Disabled = true
 		}
+		if !p.Required && r.Intn(3) == 0 {
+			p.Default = randomDefault(r, pt)
+		}
 		o.Props = append(o.Props, hx.NamedProp{Name: name, P: p})
 	}
 	return o
@@ -1187,6 +1217,20 @@ func (bg *nsBehGen) ty(depth int, ids []string) *hx.Ty {
 		o := bg.object(fmt.Sprintf("I%d", r.Intn(100)), depth+1, ids)
 		return o
 	}
+}
+
+// randomDefault: a default for an unconstrained int / string property, different almost every time
+// (objects that merely share an ID must not share defaults)
+func randomDefault(r interface{ Intn(int) int }, pt *hx.Ty) *hx.Default {
+	switch {
+	case pt.T == "int" && pt.Units == nil && pt.Min == nil && pt.Max == nil:
+		return hx.MkDefault(fmt.Sprint(1 + r.Intn(40)))
+	case pt.T == "int" && pt.Units == nil && pt.Min != nil && pt.Max != nil && *pt.Min == "0" && *pt.Max == "50":
+		return hx.MkDefault(fmt.Sprint(1 + r.Intn(40)))
+	case pt.T == "str" && pt.Pat == nil && pt.Min == nil:
+		return hx.MkDefault(fmt.Sprintf("%q", []string{"abc", "d", "ef", "xyz", "q7"}[r.Intn(5)]))
+	}
+	return nil
 }
 
 func scopeIDs(t *hx.Ty) []string {
@@ -1408,11 +1452,15 @@ func groupNSBehave(s *sink, g *hx.Gen) {
 			embed = 1 + r.Intn(3)
 			cut = r.Intn(len(sched) + 1)
 		}
+		u.literalObjects = k == 2
 		u.via = entryKinds[(nsCursor+k)%len(entryKinds)]
 		note := fmt.Sprintf("ns:%s:embed%d", strings.Join(sched, ","), embed)
 		if u.via != "" {
 			note += ":via " + u.via
 			s.stats["nsbehave:via:"+u.via]++
+		}
+		if u.literalObjects {
+			note += ":object-literals"
 		}
 		var w *nsWorld
 		built := hx.Guard(func() hx.Result {
@@ -1647,7 +1695,7 @@ func nodesOf(v *hx.Val) int {
 }
 
 func (u *nsUniverse) buildWorldEmbedded(sched []string, embed, cut int) *nsWorld {
-	b := &nsBuilder{}
+	b := &nsBuilder{literalObjects: u.literalObjects}
 	w := &nsWorld{}
 	w.yx = b.build(u.trees["YX"]).(*schema.ScopeSchema)
 	w.y = b.build(u.trees["Y"]).(*schema.ScopeSchema)
@@ -1751,4 +1799,156 @@ func sameErrPath(a, b hx.Result) bool {
 	ca := a.C != nil && *a.C
 	cb := b.C != nil && *b.C
 	return ca == cb && samePath(stripMarkers(a.Path), stripMarkers(b.Path))
+}
+
+// ---------------------------------------------------------------------------------------------
+// several scopes built from ONE slice of helper objects (stream "slices"; part of stream "link")
+//
+// The library itself hands one list of helper objects to several scopes (NewScopeSchema(root,
+// shared[:k]...)). A constructor must not write into the caller's slice: the scope being built would
+// be right, the NEXT scope built from a longer prefix would silently hold another object. Here
+// helpers h0..h(m-1) (reference-free, so that sharing them between scopes is harmless) live in one
+// slice with spare capacity; scopes are built with growing prefixes, each with a root of its own
+// that refers to the helpers of its prefix and to itself; some roots carry the ID of a helper BEYOND
+// their prefix. After every constructor call: the caller's slice is unchanged; the scope holds
+// exactly the object values it was given; every reference denotes its lexical target;
+// ValidateReferences is nil; and the scope behaves like the scope built from its description alone.
+
+func groupSharedSlice(s *sink, g *hx.Gen) {
+	r := g.R
+	bg := &behGen{g: g, maxDeep: 0}
+	m := 3 + r.Intn(3)
+	pool := []string{"A", "B", "C", "D", "E", "F", "Item"}
+	r.Shuffle(len(pool), func(i, j int) { pool[i], pool[j] = pool[j], pool[i] })
+	helperTy := make([]*hx.Ty, m)
+	b := &nsBuilder{}
+	shared := make([]*schema.ObjectSchema, m, m+3)
+	for i := 0; i < m; i++ {
+		o := &hx.Ty{T: "obj", ID: pool[i]}
+		for j, name := range []string{"a", "b", "c"}[:2+r.Intn(2)] {
+			p := &hx.Prop{Ty: bg.scalar()}
+			if j == 0 && r.Intn(2) == 0 {
+				p.Required = true
+			} else if r.Intn(3) == 0 {
+				p.Default = randomDefault(r, p.Ty)
+			}
+			o.Props = append(o.Props, hx.NamedProp{Name: name, P: p})
+		}
+		helperTy[i] = o
+		shared[i] = b.object(o)
+	}
+	k := 0
+	var orig []*schema.ObjectSchema // the helpers as the caller wrote them
+	for step := 0; k < m; step++ {
+		k += 1 + r.Intn(2)
+		if k > m {
+			k = m
+		}
+		// the root: an ID of its own, or (often) the ID of the helper right behind its prefix
+		id := fmt.Sprintf("R%d", step)
+		if k < m && r.Intn(2) == 0 {
+			id = helperTy[k].ID
+		}
+		ids := []string{id}
+		for _, h := range helperTy[:k] {
+			ids = append(ids, h.ID)
+		}
+		root := &hx.Ty{T: "obj", ID: id, Props: []hx.NamedProp{{Name: "z", P: &hx.Prop{Ty: bg.scalar()}}}}
+		for j, name := range []string{"p", "q", "r", "t"}[:2+r.Intn(3)] {
+			ref := &hx.Ty{T: "ref", ID: ids[r.Intn(len(ids))]}
+			if j == 0 {
+				ref.ID = helperTy[k-1].ID // the last helper of the prefix is always used
+			}
+			var pt *hx.Ty = ref
+			switch r.Intn(4) {
+			case 0:
+				pt = &hx.Ty{T: "list", Item: ref, Max: hx.IntP(3)}
+			case 1:
+				pt = &hx.Ty{T: "map", K: &hx.Ty{T: "str"}, V: ref}
+			}
+			root.Props = append(root.Props, hx.NamedProp{Name: name, P: &hx.Prop{Ty: pt}})
+		}
+		desc := &hx.Ty{T: "scope", Root: id, Objs: []hx.NamedObj{{ID: id, Ty: root}}}
+		for _, h := range helperTy[:k] {
+			desc.Objs = append(desc.Objs, hx.NamedObj{ID: h.ID, Ty: h})
+		}
+		note := fmt.Sprintf("slices:prefix %d of %d:root %s", k, m, id)
+		before := append([]*schema.ObjectSchema{}, shared...)
+		if step == 0 {
+			orig = before
+		}
+		rb := &nsBuilder{}
+		var rootObj *schema.ObjectSchema
+		var sc *schema.ScopeSchema
+		res := hx.Guard(func() hx.Result {
+			rootObj = rb.object(root)
+			sc = schema.NewScopeSchema(rootObj, shared[:k]...)
+			return hx.Result{R: "ok"}
+		})
+		s.stats["slices:scopes"]++
+		// (the slice is NOT repaired: what a changed element does to the next scope is reported too)
+		for i := range before {
+			if shared[i] != before[i] {
+				s.finding(Finding{Prop: "C14", What: fmt.Sprintf("NewScopeSchema(root, shared[:%d]...) changed the caller's slice: element %d (%q) is now the object %q", k, i, before[i].ID(), shared[i].ID()), Schema: desc, Detail: []string{note}})
+			}
+		}
+		if res.R != "ok" {
+			s.finding(Finding{Prop: "C14", What: "building a scope from a prefix of a shared helper slice panicked although every reference has its target (" + note + "): " + res.Msg, Schema: desc})
+			continue
+		}
+		want := map[string]*schema.ObjectSchema{id: rootObj}
+		for i, h := range helperTy[:k] {
+			want[h.ID] = orig[i]
+		}
+		ok := len(sc.Objects()) == len(want)
+		for oid, o := range want {
+			if sc.Objects()[oid] != o {
+				ok = false
+			}
+		}
+		if !ok {
+			s.finding(Finding{Prop: "C14", What: "a scope built from a prefix of a shared helper slice does not hold exactly the objects it was given (" + note + ")", Schema: desc})
+			continue
+		}
+		for _, ref := range rb.refs {
+			if !ref.ObjectReady() || ref.GetObject() != schema.Object(want[ref.ID()]) {
+				s.finding(Finding{Prop: "C14", What: fmt.Sprintf("reference to %q in a scope built from a prefix of a shared helper slice does not denote the object with that ID the scope was given (%s)", ref.ID(), note), Schema: desc})
+				ok = false
+				break
+			}
+		}
+		if err := sc.ValidateReferences(); err != nil {
+			s.finding(Finding{Prop: "C14", What: "ValidateReferences fails on a scope built from a prefix of a shared helper slice (" + note + "): " + err.Error(), Schema: desc})
+			ok = false
+		}
+		if !ok {
+			continue
+		}
+		// behaviour: like the scope built from the description alone (and like the model)
+		vals := []*hx.Val{g.Value(desc, hx.Env{}, 0), g.Value(desc, hx.Env{}, 0), hx.StrAny()}
+		if v := deepValue(g, desc, nil, 4); v != nil {
+			vals = append(vals, v)
+		}
+		for _, v := range vals {
+			if !canBuild(v) {
+				continue
+			}
+			ra, ida, out := s.emitAgainst("U", desc, sc, v, nil, false, note)
+			rbb := hx.Guard(func() hx.Result { rr, _ := hx.RunOpRaw("U", desc.Build(), v.ToGo()); return rr })
+			if !sameResult(ra, rbb) {
+				s.finding(Finding{Prop: "C14", What: "Unserialize of a scope built from a prefix of a shared helper slice differs from the scope built from its description (" + note + ")", Cases: []int{ida}, Schema: desc, Input: v, Detail: []string{ra.JSON(), rbb.JSON()}})
+				continue
+			}
+			s.stats["slices:U:"+ra.R]++
+			if ra.R == "ok" {
+				for _, op := range []string{"V", "S"} {
+					xa, i1, _ := s.emitAgainst(op, desc, sc, hx.Enc(out), out, true, note+":"+op)
+					xb := hx.Guard(func() hx.Result { rr, _ := hx.RunOpRaw(op, desc.Build(), out); return rr })
+					if !sameResult(xa, xb) {
+						s.finding(Finding{Prop: "C14", What: op + " of a scope built from a prefix of a shared helper slice differs from the scope built from its description (" + note + ")", Cases: []int{i1}, Schema: desc, Input: hx.Enc(out), Detail: []string{xa.JSON(), xb.JSON()}})
+					}
+				}
+			}
+		}
+	}
 }
